@@ -3,7 +3,7 @@
 //
 //	(a) ring alone: NewRing(l), Add, VerifFind — exhaustive for l <= 4, e <= 3l, all S; random larger ones
 //	(b) hub alone (VerifNewWatcherHub): scripted subscriber speeds, incl. the full buffer (10000) with the
-//	    spawned deleter parked at its first metric emission (finding C05-F1) and not parked
+//	    deletion of the slow subscriber held at its first metric emission (witness of the fixed defect C05-F1) and not held
 //	(c) the real NewBackend on memkv: writes through Create/Update/Delete (failed ones mixed in), Watch in a
 //	    lib.Sched thread parked at watch.subscribed / watch.cache_read, the sequencer parked before the cache
 //	    insert / before the broadcast, cache sizes {1,2,3,5,8}, start revisions relative to the window,
